@@ -61,6 +61,14 @@ CHECKS = {
             "DESIGN.md 3/C10",
             "Generated histories: construct with max_workers in {0,1-6,300}, run a prefix of a read/write history (nothing, partial, to the end, up to an error), then drop or finish, under 60/600 seeded schedules; the scheduler reports every task left blocked after the scenario returned (leaked thread) and a blocked drop/finish as dead-lock; spawned workers are counted against clamp(max_workers,1,256). The work queue alone (0-2 items, 1-2 consumers, close before/after push) is explored by depth-first search with an iteration cap; items must be stolen exactly once or stay queued.",
             "Sequentially consistent scheduler; DFS runs are exhaustive only when they finish below the cap (class queue_dfs counts them)."),
+    "C18": ("exploration", "property-based testing with the harness's own format walkers as layout oracle (XZ index, LZIP trailers, LZMA2 chunk headers)",
+            "DESIGN.md 3/C18",
+            "Generated data x block/member/chunk sizes below, at and above the dictionary x write plans with one huge write or many tiny ones: every XZ block / LZIP member holds at most max(size, dict) bytes, MT writers (real threads) cut units of exactly that size except the last, chunk_count()/member_count() equal the number of independent units; LZMAWriter with an expected size rejects writes beyond it, refuses to finish short of it, and stores exactly the bytes written in the header.",
+            "The walkers are harness code (validated against liblzma in C03); schedule independence of the MT layout is C13's."),
+    "C19": ("exploration", "boundary-grid property testing: option vectors with 0-2 fields moved to grid values outside the documented ranges, round-trip-or-error oracle",
+            "DESIGN.md 3/C19",
+            "Every writer (LZMAWriter 4 framings, LZMA2Writer, XZWriter with 0-5 wild pre-filters, LZIPWriter, MT writers) with option vectors from the boundary grid (dict_size, lc, lp, pb, lc+lp, nice_len, depth, preset dictionary none/empty/short/long, unit sizes 1..u64::MAX, delta distances, unaligned BCJ offsets): construct + write + finish must return Err somewhere or produce a stream the corresponding reader (configured from the same options) decodes to the written bytes; never a panic.",
+            "Dictionaries above 64 MiB are not instantiated."),
 }
 
 NOT_YET = {
